@@ -146,9 +146,9 @@ theorem hnsw_nonempty_partial (m : Metric V S) (ord : m.sc.Ordered)
     (q q' : V) (k ef : Int) (hq : m.dimOf q = dim) (hpre : m.pre q = some q')
     (res : List (Hit S)) (h : searchSingle m s q k m.sc.zero [] ef = .ok (.ok res)) :
     res ≠ [] := by
-  simp only [freshAdds, Bool.and_eq_true] at hfresh
+  simp only [freshAdds] at hfresh
   obtain ⟨hw, hdim⟩ := run_winv m ops (HNSW.init dim M efC efS) s (init_winv dim M efC efS)
-    (fun i _ => by simp [HNSW.init, IdMap.contains]) ((nodupB_iff _).1 hfresh.2) hpicks hrun
+    (fun i _ => by simp [HNSW.init, IdMap.contains]) ((nodupB_iff _).1 hfresh) hpicks hrun
   have hvl := liveB_iff.1 hv
   have hcnt : s.nodes.count ≠ 0 := count_ne_zero_of_live hvl
   have hml : s.maxLevel ≠ -1 := by have := hw.ml hcnt; omega
@@ -180,8 +180,8 @@ theorem hnsw_nonempty_small (m : Metric V S) (ord : m.sc.Ordered)
     (res : List (Hit S)) (h : searchSingle m s q k m.sc.zero [] ef = .ok (.ok res)) : res ≠ [] :=
   regime_nonempty m ord dim M efC efS n ops s hreg hrun hlive q q' k ef hq hpre res h
 
-/-- **Clause 2, partial.**  Regime (`smallRegime`, decidable on the history): fresh non-zero
-    ids, allowed flush picks, and the index never holds more than
+/-- **Clause 2, partial.**  Regime (`smallRegime`, decidable on the history): fresh ids
+    (0 allowed), allowed flush picks, and the index never holds more than
     `n ≤ min (2M+1) efConstruction` vertices (the bound the code gives: pruning starts at the
     `2M+2`-nd resident vertex; the property asks for `2M`).  Then every completed search with
     `ef ≥ n` — any `k ∈ ℤ`, threshold, id restriction — is an exact top-k of the flat
@@ -458,6 +458,22 @@ theorem hnsw_old_order_no_inlinks :
   refine ⟨by decide +kernel, by decide +kernel, rfl⟩
 
 /-! ### non-vacuity -/
+
+/-- id 0 is a legal id (the index stores the first vector whose own id is 0 under key 0): a
+    history in which the vertex 0 is the entry point, every resident vertex is removed without
+    a Flush, and new vectors are added — the Add purges the tombstoned entry point 0 (pick 0:
+    nothing is live), so the new vertices are linked and found. -/
+def opsZero : List (Op Int) :=
+  [.add 0 0 0, .add 5 10 0, .remove 0, .remove 5, .add 7 20 0 0, .add 8 30 0]
+
+example : smallRegime toy 1 2 10 10 5 opsZero = true ∧ liveSpec toy 1 opsZero = [(7, 20), (8, 30)] ∧
+    (match run toy pD3.init opsZero with
+     | .ok s => (s.entry, liveIds s, complete0B s,
+         match searchSingle toy s 31 2 0 [] 0 with
+         | .ok (.ok r) => r.map (fun (h : Hit Nat) => h.id) | _ => [])
+     | .error _ => (99, [], false, [])) = (7, [7, 8], true, [8, 7]) := by
+  decide +kernel
+
 
 -- the witnesses are inside the property's quantifier
 example : freshAdds opsD3N = true ∧ validPicks toy pD3.init opsD3N = true ∧
